@@ -664,7 +664,9 @@ type vARStream struct {
 	midO      uint32
 	midU      uint32
 	msgs      []*vARMsg
-	resetSent bool
+	resetSent bool   // an outgoing reset request is in flight: no writes until the peer reports it performed
+	resetRSN  uint32
+	resetLast uint32
 }
 
 type vARPeer struct {
@@ -867,6 +869,26 @@ func (p *vARPeer) gather() {
 			if strings.HasPrefix(c, "SACK:") && p.r.chance(85) {
 				p.onSack(c)
 			}
+			var rsn, res uint32
+			if n, _ := fmt.Sscanf(c, "RECONFIG:resp/%d/%d", &rsn, &res); n == 2 && res == uint32(reconfigResultSuccessPerformed) {
+				for si := 1; si <= len(p.streams); si++ {
+					st := p.streams[uint16(si)]
+					if st.resetSent && st.resetRSN == rsn {
+						// the stream may be used again: a new incarnation with sequence numbers from zero
+						st.resetSent = false
+						st.inc++
+						st.ssn, st.midO, st.midU = 0, 0, 0
+						st.msgs = nil
+					}
+				}
+			}
+		}
+	}
+	// a reset request still unanswered is retransmitted now and then
+	for si := 1; si <= len(p.streams); si++ {
+		if st := p.streams[uint16(si)]; st.resetSent && p.r.chance(25) {
+			p.h.do("ar reset %d %d %d", st.resetRSN, st.resetLast, st.si)
+			p.h.l.stat("ar.h.reset.rtx")
 		}
 	}
 }
@@ -945,6 +967,9 @@ func vARHonest(h *vAR, r *vrand, nops int, tsn uint32, il bool, pair int) {
 				size = 1 + r.n(4*p.frag)
 			default:
 				size = 1 + r.n(12*p.frag)
+			}
+			if size > rcv*3/4 {
+				size = rcv * 3 / 4 // a message that does not fit the receive buffer can never be completed
 			}
 			if len(st.msgs) > 200 {
 				break
@@ -1096,16 +1121,14 @@ func vARHonest(h *vAR, r *vrand, nops int, tsn uint32, il bool, pair int) {
 			if unread > 0 {
 				l.stat("ar.h.reset.unread")
 			}
-			h.do("ar reset %d %d %d", p.rsn, p.nextTSN()-1, st.si)
+			st.resetSent, st.resetRSN, st.resetLast = true, p.rsn, p.nextTSN()-1
+			h.do("ar reset %d %d %d", st.resetRSN, st.resetLast, st.si)
 			p.rsn++
-			// the stream may be used again: a new incarnation with sequence numbers from zero
-			st.inc++
-			st.ssn, st.midO, st.midU = 0, 0, 0
-			st.msgs = nil
 			l.stat("ar.h.reset")
 		}
 	}
 	// drain: everything outstanding is retransmitted in order, abandoned messages are skipped, everything is read
+	pending := true
 	for round := 0; round < 50; round++ {
 		p.net = nil
 		if spec, ok := p.forward(); ok {
@@ -1128,7 +1151,7 @@ func vARHonest(h *vAR, r *vrand, nops int, tsn uint32, il bool, pair int) {
 		if s := vARSackOf(h.lastGather); s != "" {
 			p.onSack(s)
 		}
-		pending := false
+		pending = false
 		for t := p.cumAck + 1; sna32LT(t, p.nextTSN()); t++ {
 			if f := p.fragAt(t); f != nil && !f.acked {
 				pending = true
@@ -1139,7 +1162,11 @@ func vARHonest(h *vAR, r *vrand, nops int, tsn uint32, il bool, pair int) {
 		}
 	}
 	h.readAll(l, 65536)
-	h.do("ar drained")
+	if pending {
+		l.stat("ar.h.notdrained")
+	} else {
+		h.do("ar drained")
+	}
 	h.do("ar gather")
 }
 
